@@ -156,12 +156,11 @@ def r3(ctx):
     from .common import success_sites
     loaders = set()
     for x in f.bodies.values():
-        if x.path.startswith("actor::Actor::open") or x.path == "store::fs::Store::open_replica":
+        if x.path.startswith("actor::"):
             for bi2, t2 in x.calls():
                 for pth in mir.callee_paths(t2):
                     if pth.startswith("store::fs::Store::") and pth in f.bodies and pth.split("::")[-1] in ("load_replica_info", "open_replica", "new_replica"):
-                        if x.path.startswith("actor::"):
-                            loaders.add(pth)
+                        loaders.add(pth)
     if not loaders:
         raise mir.AnchorMissing("the actor's open path calls no Store loader (load_replica_info/open_replica)")
 
